@@ -7,6 +7,31 @@ HERE = os.path.dirname(os.path.dirname(os.path.abspath(__file__)))
 CMD = "PYTHONPATH=/repo/src PYTHONHASHSEED=0 /venv/bin/python harness/check.py %s --tier %s"
 
 CHECKS = {
+    "C09": dict(
+        engine="E5-services",
+        technique="Coq proof (exactly-once and flush invariants of the task-handler state machine over all label sequences: submissions, completions in any order the two-worker pool allows, flush steps; result()-style waiting refuted) + in-Coq correspondence with the real TaskHandler driven by gated tasks, and the real PushService with a recording stub",
+        text="6 Coq theorems over Tasks.v: every accepted task is executed at most once and exactly once when done, only by a "
+             "worker transition; a finishing (failing) task changes no other task; flush returns normally and, when it has "
+             "returned, the handler is closed and every accepted task is finished; a submission after closing is refused and "
+             "nothing is enqueued; waiting with result() is refuted by a checked witness. Tied to the code by histories of "
+             "gated tasks on the real ThreadPoolExecutor-backed TaskHandler (done flags and flush outcome after every "
+             "operation compared inside Coq) and PushService batches (send count, sending thread, auth metadata, failures).",
+        note="Trusted: Coq kernel+VM; harness; concurrent.futures executor semantics (environment model); slow = within the 10 s wait; "
+             "thread settling by bounded waits (30 ms) in the harness.",
+        design="5-C09"),
+    "C14": dict(
+        engine="E5-services",
+        technique="Coq proof (lifecycle state machine: start idempotent, NO_TRACE never writes hooks over all op sequences and faults, shutdown restores the pre-start hooks and attempts every step for every fault oracle, inert afterwards; unguarded discipline refuted) + in-Coq correspondence with the real Deep/TriggerHandler start/shutdown",
+        text="7 Coq theorems over Lifecycle.v: a repeated start is the identity; with tracing disabled no sequence of agent "
+             "operations with any faults changes either hook register; start followed by shutdown leaves both registers as "
+             "they were, whatever fails, with polling stopped, started=false and the handler inert; a shutdown of a started "
+             "agent attempts hooks, drain, stop-poll and EVERY plugin in order for every fault oracle; an inert handler acts "
+             "on nothing and a later start re-enables it; the unguarded step sequence is refuted by a checked witness. Tied "
+             "to the code by op sequences on the real Deep object with fault-raising doubles for flush / poller / plugins, "
+             "hooks read with sys.gettrace / threading.gettrace, an event delivered in another thread after every step.",
+        note="Trusted: Coq kernel+VM; harness; 'fail' = raise (a peer that never answers is liveness, outside the model); gRPC "
+             "channel, poller, delivery replaced by doubles; the host does not replace the agent's hooks while it owns them.",
+        design="5-C14"),
     "C12": dict(
         engine="E5-services",
         technique="Coq proof (convergence invariant over all histories of poll answers / register / unregister / task executions in any order of the two running tasks; reported-hash invariant; no-change and failed-poll frame laws; captured-config discipline refuted by witness) + in-Coq correspondence with the real service under a controlled task handler + physical two-worker runs",
@@ -223,8 +248,8 @@ def main():
                  serves_properties=["C02", "C05", "C06", "C07"], kind_free_text="Gallina work-list collector over abstract heaps; step invariants; in-Coq correspondence on generated object graphs"),
             dict(name="E2-handler", path="coq/theories/Limiter.v coq/theories/LimiterProofs.v coq/theories/Cond.v harness/lib/e2.py harness/props/c04.py harness/props/c10.py coq/theories/Match.v coq/theories/MatchProofs.v coq/theories/Callbacks.v coq/theories/CallbacksProofs.v harness/props/c03.py harness/props/c15.py coq/theories/Template.v coq/theories/TemplateProofs.v coq/theories/Metric.v coq/theories/MetricProofs.v harness/props/c16.py harness/props/c17.py coq/theories/TriggerTable.v coq/theories/TriggerTableProofs.v harness/props/c11.py",
                  serves_properties=["C03", "C04", "C10", "C11", "C15", "C16", "C17"], kind_free_text="Gallina models of the rate limiter (sequential and interleaved), condition gate and scope; real TriggerHandler with recording plugins, virtual clock, synthetic frames, forced schedules"),
-            dict(name="E5-services", path="coq/theories/ConfigSvc.v coq/theories/ConfigSvcProofs.v harness/lib/e5.py harness/props/c12.py harness/props/c13.py",
-                 serves_properties=["C12", "C13"], kind_free_text="Gallina state machines of the configuration service / task handler / lifecycle; real services under controlled executors and scripted stubs"),
+            dict(name="E5-services", path="coq/theories/ConfigSvc.v coq/theories/ConfigSvcProofs.v harness/lib/e5.py harness/props/c12.py harness/props/c13.py coq/theories/Tasks.v coq/theories/TasksProofs.v coq/theories/Lifecycle.v coq/theories/LifecycleProofs.v harness/props/c09.py harness/props/c14.py",
+                 serves_properties=["C09", "C12", "C13", "C14"], kind_free_text="Gallina state machines of the configuration service / task handler / lifecycle; real services under controlled executors and scripted stubs"),
             dict(name="E4-stores", path="coq/theories/Attrs.v coq/theories/AttrsProofs.v coq/theories/Config.v harness/props/c18.py harness/props/c19.py",
                  serves_properties=["C18", "C19"], kind_free_text="Gallina models of the attribute store, resources, configuration resolution; proofs; in-Coq correspondence"),
         ],
